@@ -146,7 +146,8 @@ func (e *Env) conformingURL(r *rand.Rand) (string, bool) {
 	return "", false
 }
 
-var c07PlainValues = []string{"v", "some text", "a&b", "x<y", "q\"uote", "it's", "tab\there", "é", "100%", "a=b;c"}
+var c07PlainValues = []string{"v", "some text", "a&b", "x<y", "q\"uote", "it's", "tab\there", "é", "100%", "a=b;c", "", " lead and trail ", "line\nbreak", "𝒳 ünï © ™", "&amp; &lt; &#38;", "!#$%()*+,-./:;=?@[]^_`{|}~",
+	strings.Repeat("long value ", 500), "a\u00a0b\u2028c", "<script>alert(1)</script>", "javascript:alert(1)", "1997-07-16T19:20:30.45+01:00"}
 
 // conformingAttrs draws attributes for el that the strict rules guarantee to survive unchanged.
 func (e *Env) conformingAttrs(r *rand.Rand, el string, used map[string]bool) [][2]string {
@@ -325,7 +326,16 @@ func (e *Env) conformingDoc(r *rand.Rand, used map[string]bool) (string, int) {
 		}
 		return out
 	}
-	return gen.Serialize(r, build(0), 0), nAttrEls
+	doc := gen.Serialize(r, build(0), 0)
+	if r.Intn(40) == 0 { // a document several tokenizer buffers long
+		var b strings.Builder
+		for b.Len() < 9000 {
+			b.WriteString(doc)
+			b.WriteString(gen.Serialize(r, build(1), 0))
+		}
+		doc = b.String()
+	}
+	return doc, nAttrEls
 }
 
 func validUTF8(s string) bool {
